@@ -1043,7 +1043,7 @@ def cases_C04(ctx):
     # socket-backed streams, plain and with chunked transfer decoding, over well-formed and *malformed* chunked
     # bodies: size lines that are not hexadecimal, negative, signed, prefixed, underscored, blank, enormous (more
     # digits than a machine word holds), missing CRLFs, data after the terminating chunk
-    odd_sizes = [b"ffffffffffffffff", b"8000000000000000", b"7fffffffffffffff", b"10000000000000000", b"f" * 40, b"1" + b"0" * 30,
+    odd_sizes = [b"ffffffffffffffff", b"8000000000000000", b"7fffffffffffffff", b"10000000000000000", b"f" * 40, b"1" + b"0" * 30, b"-6" + b"8" * 30, b"-ffffffffffffffff", b"-8000000000000001",
                  b"-1", b"-5", b"+3", b"0x5", b"0X10", b"1_0", b" 5 ", b"", b"zz", b"5;ext=1", b"00000000000000000005", b"5\r", b"\t3"]
     for _ in range(ctx.n(150, 1500)):
         chunked = rng.random() < 0.75
